@@ -346,7 +346,11 @@ def buffer_merge(ctx, crate):
         H = seq[0].args[1]
         okd = d[0] == 'op' and d[1] == 'sub' and d[3] == fd("depth")
         DD = d[4] if okd else None
-        okh = okd and h == ('op', 'shr', 'u64', H, ('op', 'shl', 'u8', DD, C('i32', 1)))
+        okh = False
+        if okd:
+            # h >> 2 dd in whatever form (<< 1, * 2): read at a few values
+            from rules.common import feval
+            okh = all(feval(h, {H: hv, DD: k}, e) == (hv >> (2 * k)) for hv in (0b110110100, 0xffff0) for k in (0, 1, 2, 3))
         ok = okd and okh and fl == fd("is_full") and dm == fd("depth")
         why = "writes build_raw_value(depth - dd, h >> 2 dd, is_full, depth) with h the first hash of the run" if ok else "the merged value is build_raw_value(%s, %s, %s, %s)" % tuple(show(a)[:50] for a in evs[0].args)
     ctx.report(clause, "buff_to_bmoc:merged-cell", ok, why, at=b.span, kind="N")
